@@ -1375,3 +1375,50 @@ Proof.
     apply nodupb_NoDup. vm_cast_no_check (eq_refl true).
   - vm_cast_no_check (eq_refl true).
 Qed.
+
+(* --- to BinaryColor is monotone; BinaryColor -> X -> BinaryColor is the identity *)
+Lemma c13_rgb_binary_mono : forall a b, In (FRgbBin, a, b) conv_pairs -> forall c1 c2, valid a c1 -> valid a c2 ->
+  get_r a c1 <= get_r a c2 -> get_g a c1 <= get_g a c2 -> get_b a c1 <= get_b a c2 ->
+  convert FRgbBin a b c1 <= convert FRgbBin a b c2.
+Proof.
+  intros a b H c1 c2 V1 V2 Lr Lg Lb. destruct (pair_facts _ _ _ H) as (Ga & _ & _ & K). cbn in K. apply andb_prop in K. destruct K as [Ra _].
+  cbn [convert]. rewrite (conv_rgb_bin_luma a c1 Ga Ra V1), (conv_rgb_bin_luma a c2 Ga Ra V2).
+  pose proof (luma_via_mono a c1 c2 Ga Ra V1 V2 Lr Lg Lb).
+  unfold bin_of_bool, bin_on, bin_off.
+  destruct (Z.geb_spec (luma_via a c1) rgb_bin_threshold); destruct (Z.geb_spec (luma_via a c2) rgb_bin_threshold); lia.
+Qed.
+
+Lemma c13_gray_binary_mono : forall a b, In (FGrayBin, a, b) conv_pairs -> forall c1 c2, valid a c1 -> valid a c2 ->
+  luma_of a c1 <= luma_of a c2 -> convert FGrayBin a b c1 <= convert FGrayBin a b c2.
+Proof.
+  intros a b H c1 c2 V1 V2 L.
+  destruct (c13_gray_binary_upper_half a b H c1 V1) as (On1 & Off1 & _).
+  destruct (c13_gray_binary_upper_half a b H c2 V2) as (On2 & Off2 & _).
+  destruct (Z_le_gt_dec (2 ^ (bpp a - 1)) (luma_of a c1)) as [G | G].
+  - rewrite (proj2 On1 G), (proj2 On2 ltac:(lia)). lia.
+  - rewrite (proj2 Off1 ltac:(lia)). destruct (Z_le_gt_dec (2 ^ (bpp a - 1)) (luma_of a c2)) as [G2 | G2].
+    + rewrite (proj2 On2 G2). unfold bin_off, bin_on. lia.
+    + rewrite (proj2 Off2 ltac:(lia)). lia.
+Qed.
+
+Definition bin_rt_check (p : family * crow * crow) : bool :=
+  let '(f, a, b) := p in
+  match f with
+  | FBinAny => match find_pair b a with
+               | Some g => (convert g b a (convert FBinAny a b bin_off) =? bin_off) && (convert g b a (convert FBinAny a b bin_on) =? bin_on)
+                           && (convert FBinAny a b bin_off =? color_black b) && (convert FBinAny a b bin_on =? color_white b)
+               | None => false
+               end
+  | _ => true
+  end.
+Lemma pairs_bin_rt : forallb bin_rt_check conv_pairs = true.
+Proof. vm_cast_no_check (eq_refl true). Qed.
+
+Lemma c13_binary_roundtrip : forall a b, In (FBinAny, a, b) conv_pairs ->
+  exists g, find_pair b a = Some g /\
+  convert g b a (convert FBinAny a b bin_off) = bin_off /\ convert g b a (convert FBinAny a b bin_on) = bin_on /\
+  convert FBinAny a b bin_off = color_black b /\ convert FBinAny a b bin_on = color_white b.
+Proof.
+  intros a b H. pose proof (proj1 (forallb_forall _ conv_pairs) pairs_bin_rt _ H) as W. unfold bin_rt_check in W.
+  destruct (find_pair b a) as [g|]; [|discriminate]. exists g. split; [reflexivity|]. lia.
+Qed.
